@@ -32,6 +32,10 @@ CONSTANTS Ids,        \* identifiers
           Family,     \* "all" | "declarators" (one declaration with an init-declarator list of up to MaxLen declarators
                       \* x, y, z: event field join = TRUE means "joined to the previous declarator by a comma"; the
                       \* list is semantically the sequence of its declarators, so neither half reads `join`) |
+                      \* "funcspec" (file-scope function declarations whose function-specifier list is rendered as
+                      \* event field nr: "" `inline`, "after" `inline _Noreturn`, "before" `_Noreturn inline`, "dup" `inline
+                      \* inline` (without inline: nothing / `_Noreturn`); _Noreturn and repetition do not change linkage or
+                      \* definitions, so neither half reads nr; in the other families nr cycles with position and form) |
                       \* "funcname" (uses of __func__, evaluated or under sizeof, and block-scope statics, in function
                       \* bodies and nested blocks) | "tentative": only file-scope object declarations `int x;` `int x = v;` `static int x;`
                       \* `static int x = v;` `extern int x;` of several identifiers, identifiers introduced in a fixed order
@@ -517,11 +521,14 @@ Extensible ==
 
 Next ==
   /\ Extensible
-  /\ \E id \in Ids, p \in NextPaths, a \in (IF AsmForms THEN Bool ELSE {FALSE}) :
+  /\ \E id \in Ids, p \in NextPaths, a \in (IF AsmForms THEN Bool ELSE {FALSE}),
+        nrc \in (IF Family = "funcspec" THEN {"", "after", "before", "dup"} ELSE {"-"}) :
        \E f \in (IF Family = "tentative" THEN TentForms ELSE IF Family = "funcname" THEN FnForms
+                 ELSE IF Family = "funcspec" THEN {g \in FileForms : g.kind = "func"}
                  ELSE IF p = <<>> THEN FileForms ELSE BlockForms) :
          LET firstdecl == ~\E j \in 1..Len(hist) : hist[j].id = id IN
          /\ Family = "funcname" => p # <<>>
+         /\ Family = "funcspec" => p = <<>>
          /\ f.kind = "fname" \/ MixKinds \/ \A j \in 1..Len(hist) : hist[j].id = id => hist[j].kind = f.kind
          /\ a => /\ firstdecl
                  /\ \/ p = <<>> /\ f.def # "body"
@@ -537,7 +544,12 @@ Next ==
               /\ hist # <<>> => LET q == hist[Len(hist)] IN
                                 p = q.path /\ f.sc = q.sc /\ f.tls = q.tls /\ f.inl = q.inl
          /\ Declare([id |-> IF f.kind = "fname" THEN FnId ELSE id, path |-> p, sc |-> f.sc, tls |-> f.tls, inl |-> f.inl, kind |-> f.kind,
-                     def |-> f.def, asm |-> a, join |-> (Family = "declarators" /\ hist # <<>>)])
+                     def |-> f.def, asm |-> a, join |-> (Family = "declarators" /\ hist # <<>>),
+                     nr |-> IF nrc # "-" THEN nrc
+                            ELSE IF f.kind = "func" /\ p = <<>> /\ Family # "declarators"   \* specifiers are shared by a list
+                            THEN <<"", "after", "before", "dup">>[((Len(hist) + (IF f.inl THEN 1 ELSE 0) + (IF f.def = "body" THEN 2 ELSE 0)
+                                                                  + (IF f.sc = "none" THEN 0 ELSE IF f.sc = "static" THEN 1 ELSE 3)) % 4) + 1]
+                            ELSE ""])
 
 Spec == Init /\ [][Next]_vars
 
